@@ -46,14 +46,14 @@ CHECKS = {
        "(each child exactly once, right kind/id/extension, root included, nothing else exists; as-built registration is the negative "
        "control). Every generated case is materialised as a real directory, tar and zip archives (in memory and file-backed, stored and "
        "deflated, './' prefixes, long and unicode names) and an embedded table, and every query of the universe is asked of each source, "
-       "also from 4 threads; the embed! macro is compared with the filesystem on a fixed directory.",
+       "also from 4 threads (duplicate and dir/../ member names, GNU long names, empty and 300 kB members, symlinked and non-UTF-8-named entries, a root named like a file); the embed! macro is expanded in its own harness variant and compared with the filesystem on a fixed directory.",
   design="5/C04", note="Trees of <= 3 nodes exhaustively (4 in the thorough tier), <= 5 by simulation; 2 model names x 4 concretisations; archive formats trusted to the tar/zip crates.",
   technique="TLA+ spec Sources.tla checked by TLC; spec->code replay of every generated (tree, members, order) on all source kinds",
  ),
  "C11": dict(
   category="model_checking",
   text="Sources.tla states which ids a directory / recursive directory asset lists (RefDirIds/RefRecIds) and TLC checks the code's algorithm against "
-       "them for every tree, three extension lists and an unreadable sub-directory; every generated tree is loaded through load_dir / "
+       "them for every tree, four extension lists (one of them empty) and an unreadable sub-directory; every generated tree is loaded through load_dir / "
        "load_rec_dir (also Arc<T>), ids, iter and iter_cached on every source kind and compared with the specification's sets, incl. the root "
        "id and a missing directory.",
   design="5/C11", note="Same bounds as C04; unreadable directories are simulated by a wrapper source.",
@@ -64,7 +64,7 @@ CHECKS = {
   text="CacheRace.tla splits every call into look-up, value production and first-writer-wins insertion; TLC checks StableHandle, SeesWinner, "
        "PresenceMonotone and HandleLive over every interleaving of 3 threads x 2 calls on 1-2 keys (insert-replaces as negative control). "
        "Concurrent runs on the real cache (2-4 threads, forced simultaneous misses, thousands of unrelated insertions, long-lived handles "
-       "re-read) are validated against it by linearization search using the Insert hook inside the shard lock, under std and parking_lot locks.",
+       "re-read) are validated against it by linearization search using the Insert hook inside the shard lock, under std and parking_lot locks; ids of every length class, 64 types under one id and look-ups made with the stored id itself are probed on the three front-ends.",
   design="5/C01", note="All schedules are covered in the model only (3 threads, 2 keys); real schedules are OS-produced plus gate-forced ones. Handle identity = "
        "address of the returned reference. Shard count and hash seed vary per cache instance (fresh cache per round).",
   technique="TLA+ spec CacheRace.tla checked by TLC; trace validation with linearization search of concurrent runs on the real cache",
